@@ -106,17 +106,53 @@ func runC11(c *Ctx) {
 	// builders
 	var okB, errB *ssa.Function
 	var okCall, errCall *ssa.Call
+	var errArgs []ssa.Value
 	for _, ci := range flow.CallInstrs(h) {
 		call, ok := ci.(*ssa.Call)
 		if !ok {
 			continue
 		}
 		g := flow.StaticCallee(call)
-		if g == nil || pkgOf(g) == nil || pkgOf(g).Path() != pkgSM || !c.writesMessage(g) {
+		if g == nil || pkgOf(g) == nil || pkgOf(g).Path() != pkgSM {
+			continue
+		}
+		if !c.writesMessage(g) {
+			// the builder may be called from a step helper of the handler (rejectCER → errorCEA): the builder is
+			// the function that writes, the call judged for its arguments the helper's own when it only hands its
+			// parameters on
+			var inner *ssa.Function
+			var innerCall *ssa.Call
+			if g.Blocks != nil {
+				for _, cj := range flow.CallInstrs(g) {
+					if ic, ok := cj.(*ssa.Call); ok {
+						if g2 := flow.StaticCallee(ic); g2 != nil && pkgOf(g2) != nil && pkgOf(g2).Path() == pkgSM && c.writesMessage(g2) {
+							inner, innerCall = g2, ic
+						}
+					}
+				}
+			}
+			if inner == nil {
+				continue
+			}
+			// arguments of the inner call: parameters of the helper are replaced by the outer arguments
+			liftedArgs := make([]ssa.Value, len(innerCall.Call.Args))
+			for i, a := range innerCall.Call.Args {
+				liftedArgs[i] = a
+				if pp, isP := flow.Peel(a).(*ssa.Parameter); isP && pp.Parent() == g {
+					if j := paramIndex(g, pp); j < len(call.Call.Args) {
+						liftedArgs[i] = call.Call.Args[j]
+					}
+				}
+			}
+			if eb[call.Block()] {
+				errB, errCall, errArgs = inner, call, liftedArgs
+			} else {
+				okB, okCall = inner, call
+			}
 			continue
 		}
 		if eb[call.Block()] {
-			errB, errCall = g, call
+			errB, errCall, errArgs = g, call, call.Call.Args
 		} else {
 			okB, okCall = g, call
 		}
@@ -167,7 +203,7 @@ func runC11(c *Ctx) {
 		if errCall != nil {
 			pe := errorResult(parse)
 			okArg := false
-			for _, a := range errCall.Call.Args {
+			for _, a := range errArgs {
 				if a == pe {
 					okArg = true
 				}
@@ -314,6 +350,14 @@ func runC11(c *Ctx) {
 				if mp, isP := flow.Peel(cj.Common().Args[1]).(*ssa.Parameter); isP && mp.Parent() == g {
 					if i := paramIndex(g, mp); i < len(ci.Common().Args) && isFromParsed(ci.Common().Args[i]) {
 						good = true
+					}
+				}
+				// … or the helper is handed the parsed CER and derives the metadata itself: FromCER(param)
+				if fc, isCall := flow.Peel(cj.Common().Args[1]).(*ssa.Call); isCall && flow.IsCallTo(fc, pkgSMPeer, "", "FromCER") {
+					if cp, isP := flow.Peel(fc.Call.Args[0]).(*ssa.Parameter); isP && cp.Parent() == g {
+						if i := paramIndex(g, cp); i < len(ci.Common().Args) && ci.Common().Args[i] == cerObj {
+							good = true
+						}
 					}
 				}
 			}
